@@ -1,6 +1,6 @@
 ----------------------------- MODULE MC_Lifecycle -----------------------------
 EXTENDS Lifecycle, Json, IOUtils, CSV
-View == << ctx, acc, lis, offered, cs, armed, inp, gate, hgate, wg, gAcc, npk >>
+View == << ctx, acc, lis, offered, cs, armed, inp, gate, hgate, wg, gAcc, gWg, pset, npk >>
 EmitFile == IF "EMIT_FILE" \in DOMAIN IOEnv THEN IOEnv.EMIT_FILE ELSE ""
 Emit == IF EmitFile # "" /\ sched' # sched THEN CSVWrite("%1$s", << ToJson(sched') >>, EmitFile) ELSE TRUE
 =============================================================================
